@@ -44,6 +44,11 @@ m('C07', 'brute_force_solver', "if size > self.optimal_size:", "if size >= self.
 m('C07', 'brute_force_solver', "for i in range(len(profile1) - 1, -1, -1):", "for i in range(len(profile1)):", 'moregen scans upward')
 m('C07', 'brute_force_solver', "if self.optimal_size == -1:", "if self.optimal_size <= 0:")
 m('C07', 'brute_force_solver', "[0] * self.model._get_max_rank()", "[0] * num_students", 'defect 6 again')
+m('C07', 'brute_force_solver', "self.model.get_max_lec_upper_quota() * num_lecturers)", "self.model.get_max_lec_upper_quota())", 'initial total deviation too small')
+m('C07', 'brute_force_solver', "self.optimal_max_lec_abs_diff = self.model.get_max_lec_upper_quota()", "self.optimal_max_lec_abs_diff = self.model.get_max_lec_upper_quota() - 1", 'initial maximum deviation too small')
+m('C07', 'brute_force_solver', "if cost < self.optimal_maxsizemincost:", "if cost > self.optimal_maxsizemincost:")
+m('C07', 'brute_force_solver', "self.optimal_maxsizemindegree = degree", "self.optimal_maxsizemindegree = degree - 1", 'stored value attained by no matching')
+m('C07', 'brute_force_solver', "self.optimal_maxsizemindegree = self.model.num_projects", "self.optimal_maxsizemindegree = 0", 'equivalent: overwritten by the first valid assignment', equivalent=True)
 # ---- C11
 m('C11', 'model', "cost_st += pair.rank_student", "cost_st += 1")
 m('C11', 'model', "if lpos > lneg:", "if lpos < lneg:")
